@@ -14,6 +14,7 @@ pub enum Operation {
 }
 
 #[derive(Clone, Debug)]
+#[allow(dead_code)]
 pub struct OpArtifact {
     /// `<Type>/<field>` of the entrypoint the operation belongs to
     pub entry: String,
@@ -45,6 +46,7 @@ impl OpArtifact {
     }
 }
 
+#[allow(dead_code)]
 pub struct Entry {
     pub dir: String,
     pub path: String,
